@@ -10,7 +10,8 @@ CONSTANTS Slice,        \* name of the configuration slice (see CfgSlices)
           Weights,      \* weights the weigher may report
           MaxT,         \* clock horizon
           CheckProps,   \* monitors to evaluate
-          Emit          \* TRUE: print one behaviour per edge (use with VIEW)
+          Emit,         \* TRUE: print one behaviour per edge (use with VIEW)
+          MaxDepth      \* bound on the length of emitted behaviours
 
 M == INSTANCE Monitors
 
@@ -61,6 +62,10 @@ OpJson(o) ==
 CfgJson(c) == [kind |-> "unsync", cap |-> c.cap, ttl |-> c.ttl, tti |-> c.tti,
                weigher |-> c.weigher, hasher |-> c.hasher, nkeys |-> c.nkeys]
 
+\* what the replay compares with the real cache: everything except the live-object counts,
+\* which the model states for quiescent points only
+Expected(e) == [e EXCEPT !.snap = [f \in DOMAIN e.snap \ {"lk", "lv"} |-> e.snap[f]]]
+
 Init == /\ \E c \in Cfgs : s = UInit(c) /\ hs = M!HInit(c)
         /\ bad = {}
         /\ h = <<>>
@@ -73,14 +78,13 @@ Next == \E o \in Ops(s) :
              /\ bad' = {p \in CheckProps : ~M!AllowedBy(p, hs, pre, e)}
              /\ hs' = IF CheckProps = {} THEN hs ELSE M!HUpdate(CheckProps, hs, pre, e)
              /\ h' = IF Emit \/ MaxDepth > 0 THEN Append(h, OpJson(o)) ELSE h
-             /\ (Emit => PrintT(<<"EDGE", ToJson([cfg |-> CfgJson(s.cfg), ops |-> h', last |-> e])>>))
+             /\ (Emit => PrintT(<<"EDGE", ToJson([cfg |-> CfgJson(s.cfg), ops |-> h', last |-> Expected(e)])>>))
 
 Spec == Init /\ [][Next]_vars
 
 Ok == bad = {}
 NoPanic == ~s.panic
 Stop == bad = {}     \* CONSTRAINT: do not explore beyond a violation
-CONSTANT MaxDepth
 Depth == Len(h) < MaxDepth   \* CONSTRAINT for emission runs (h is hidden by the VIEW)
 
 =============================================================================
